@@ -84,7 +84,7 @@ def cases(tier, seed):
                     continue
                 out.append({"id": "ord/n%d/a%d/c%d" % (n, a, c), "kind": "ord", "n": n, "a": a, "c": c, "cost": 3 ** n})
     cn = 4 if tier == "quick" else 5
-    wmax = 3 if tier == "quick" else 4
+    wmax = 3 if tier == "quick" else 5
     for n in range(1, cn + 1):
         for sens in range(1, n + 2):
             for wt in range(0, wmax + 1):
@@ -95,7 +95,7 @@ def cases(tier, seed):
         for i in range(12 if tier == "quick" else 60):
             out.append({"id": "shared/%s/%d" % (kind, i), "kind": "shared", "rule": kind, "seed": [seed, 131, i], "cost": 200})
     # long random sequences for larger ensembles (beyond the explored graphs)
-    nr = 40 if tier == "quick" else 400
+    nr = 40 if tier == "quick" else 3000
     for i in range(nr):
         out.append({"id": "confrand/%d" % i, "kind": "confrand", "seed": [seed, 13, i], "cost": 2000})
     return out
@@ -295,7 +295,7 @@ def finalize(counters, tier, records):
         "exhaustive": True,
         "exhaustive_scope": "all vote vectors for n <= %d x all parameters <= n+1 (stateless); every reachable joint "
                             "state x every vector for n <= %d, wait_time <= %d (ConfirmedElection); random sequences "
-                            "beyond that are sampled, not exhaustive" % ((6, 4, 3) if tier == "quick" else (7, 5, 4)),
+                            "beyond that are sampled, not exhaustive" % ((6, 4, 3) if tier == "quick" else (7, 5, 5)),
         "states": int(counters.get("confirmed_joint_states", 0)),
         "transitions": int(counters.get("confirmed_transitions", 0)),
     }
